@@ -68,6 +68,7 @@ type Obligation struct {
 	Desc      string
 	ExpectSat bool // vacuity / cover obligations
 	Props     []string
+	Scoped    bool // Props come from a property-scoped clause: only decided in checks of those properties
 	vc        *VC
 	// results
 	Status  string // unsat | sat | unknown | timeout | error
